@@ -17,6 +17,7 @@ import SwimVerif.Proofs.EpochQueueRun
 import SwimVerif.Proofs.MapLaneTakeDrop
 import SwimVerif.Proofs.MapCompose
 import SwimVerif.Proofs.EpochQueueCompose
+import SwimVerif.Proofs.MapLaneAgent
 
 set_option linter.unusedVariables false
 namespace SwimVerif.WT
@@ -181,6 +182,22 @@ theorem C02_agent_emits_current (ops : List AOp) (k : Nat) :
     (emitOf (aRun {} ops) = some (.rem k) → (aRun {} ops).content k = none) :=
   ⟨fun v h => emitOf_upd_current h, fun h => emitOf_rem_absent (C02_agent_queue_invariant ops) h⟩
 
+/-- **The lane model refines the specification agent.** For the faithful lane model of `Model/MapLane.lean` (sorted
+map, indexed event queue with wrapping epochs, `WriteQueues::pop` with the event/sync alternation and pending sync
+requests, the loop skipping vanished keys, take/drop) and every run in which queue and map stay below 2^64 - 1 entries:
+the abstraction (map, key-only queue, fold of the standard events written so far) satisfies the agent invariant
+`AInv` of `C02_agent_queue_invariant` — sync traffic never disturbs it. -/
+theorem C02_lane_refines_agent (ops : List ML.Op) (hb : ∀ n, ML.Small (ML.run {} (ops.take n))) :
+    AInv (ML.absL (ML.run {} ops) (applyAll emptyMap (ML.opsOf (ML.framesOf {} ops)))) :=
+  (ML.linv_run ops {} emptyMap ML.linv_init hb).agent
+
+/-- **…hence the lane model converges**: whenever its event queue is empty, an observer that applied every standard
+event the lane wrote holds exactly the lane's map. -/
+theorem C02_lane_converges (ops : List ML.Op) (hb : ∀ n, ML.Small (ML.run {} (ops.take n)))
+    (hq : (ML.run {} ops).wq.eq.events = []) :
+    applyAll emptyMap (ML.opsOf (ML.framesOf {} ops)) = ML.absContent (ML.run {} ops).content :=
+  ML.lane_converges ops hb hq
+
 /-! Non-vacuity -/
 example : (mqRun {} [.push (.upd 1 [1]), .push (.upd 2 [2]), .push (.upd 1 [3]), .pop]).popped = [.upd 1 [3]] := by
   decide
@@ -207,6 +224,14 @@ example : (cRun {} [.lane (.update 1 [1]), .lane .pop, .lane (.update 1 [2]), .l
     (cRun {} [.lane (.update 1 [1]), .lane .pop, .lane (.update 1 [2]), .lane .pop, .deliver]).rt.queue = [] ∧
     (cRun {} [.lane (.update 1 [1]), .lane .pop, .lane (.update 1 [2]), .lane .pop, .deliver]).a.queue = [] := by decide
 example : emitOf (aRun {} [.update 1 [1], .update 1 [2]]) = some (.upd 1 [2]) := by decide
+/-- lane run with a coalesced update, a sync request in between, a drop and a vanished key -/
+def exLane : List ML.Op :=
+  [.update 5 1, .update 2 1, .update 5 3, .sync 7, .write, .write, .write, .write, .write, .dropFirst 1, .update 9 4,
+   .remove 9, .write, .write, .write]
+example : (∀ n, ML.Small (ML.run {} (exLane.take n))) ∧ (ML.run {} exLane).wq.eq.events = [] ∧
+    ML.framesOf {} exLane = [.upd 5 3, .sync 7 2 1, .upd 2 1, .synced 7, .rem 2, .rem 9] ∧
+    (ML.run {} exLane).content = [(5, 3)] :=
+  ⟨ML.small_prefixes exLane (by decide), by decide, by decide, by decide⟩
 /-- take / drop on a non-trivial map -/
 example : (ML.run {} [.update 5 1, .update 2 1, .update 9 1, .update 2 7]).content = [(2, 7), (5, 1), (9, 1)] ∧
     (ML.step (ML.run {} [.update 5 1, .update 2 1, .update 9 1]) (.dropFirst 2)).1.content = [(9, 1)] ∧
